@@ -137,19 +137,21 @@ def analyse(src: str):
         raise Unrecognised("registration precedes construction")
     before = any(g < c for g in guards)
     after = any(c < g < r for g in guards)
-    return before, after
+    # is the test between construction and registration of the form `… and dic[id_] is not obj` (F01b)?
+    identity = any(c < g < r and _is_held_by_other(body[g].test, id_name, dic_name, obj_name) for g in guards)
+    return before, after, identity
 
 
 def translate(repo: Path):
     """-> (lean source, recognised: bool, note)"""
     src = (Path(repo) / "torchtree" / "core" / "utils.py").read_text()
     try:
-        before, after = analyse(src)
-        ok, note = True, f"checkBefore={before} checkAfter={after}"
+        before, after, identity = analyse(src)
+        ok, note = True, f"checkBefore={before} checkAfter={after} afterIsIdentity={identity}"
     except Unrecognised as e:
-        before, after, ok, note = False, False, False, f"unrecognised: {e}"
+        before, after, identity, ok, note = False, False, False, False, f"unrecognised: {e}"
     except SyntaxError as e:
-        before, after, ok, note = False, False, False, f"unparsable: {e}"
+        before, after, identity, ok, note = False, False, False, False, f"unparsable: {e}"
     b = lambda x: "true" if x else "false"  # noqa: E731
     lean = (
         "import TTModel.C13_Loader\n"
@@ -157,7 +159,7 @@ def translate(repo: Path):
         f"    {note} -/\n"
         "namespace TTGen.C13\n"
         f"def recognised : Bool := {b(ok)}\n"
-        f"def cfg : TT.C13.Cfg := ⟨{b(before)}, {b(after)}⟩\n"
+        f"def cfg : TT.C13.Cfg := ⟨{b(before)}, {b(after)}, {b(identity)}⟩\n"
         "end TTGen.C13\n"
     )
     return lean, ok, note
